@@ -16,7 +16,7 @@ for fn, bound, other, expr in (("decrease_max", "MAX", "MIN", "value - 1 - dom_o
     contract(SO + fn, types=OPT_T, result="bool", props=["C03", "C13", "C16", "C04"], modifies=["shr_domains_stack"],
         requires=["H >= 1", "stacks_top[0] < H", "0 <= var_idx and var_idx < V", "forall(v, 0, V, dom_indices_arr[v] < D)"],
         ensures=[
-            ("C03.bound", f"implies(result, shr_domains_stack[stacks_top[0], dom_indices_arr[var_idx], {bound}] + dom_offsets_arr[var_idx] == value {'- 1' if bound == 'MAX' else '+ 1'})"),
+            ("C03.bound", f"shr_domains_stack[stacks_top[0], dom_indices_arr[var_idx], {bound}] + dom_offsets_arr[var_idx] == value {'- 1' if bound == 'MAX' else '+ 1'}"),
             ("C03.result", f"result == (shr_domains_stack[stacks_top[0], dom_indices_arr[var_idx], MIN] <= shr_domains_stack[stacks_top[0], dom_indices_arr[var_idx], MAX])"),
             ("C03.frame", f"forall(l, 0, H, forall(d, 0, D, implies(l != stacks_top[0] or d != dom_indices_arr[var_idx], shr_domains_stack[l, d, MIN] == old(shr_domains_stack)[l, d, MIN] and shr_domains_stack[l, d, MAX] == old(shr_domains_stack)[l, d, MAX])))"),
             ("C03.other", f"shr_domains_stack[stacks_top[0], dom_indices_arr[var_idx], {other}] == old(shr_domains_stack)[stacks_top[0], dom_indices_arr[var_idx], {other}]"),
